@@ -531,18 +531,29 @@ class GeckoAsyncSpaMan(ABC, AsyncTasks):
         try:
             while True:
 
-                if (
-                    self.spa_state == GeckoSpaState.IDLE
-                    and self._spa_descriptors is None
-                ):
-                    await self.async_locate_spas(self._spa_address)
+                try:
+                    if (
+                        self.spa_state == GeckoSpaState.IDLE
+                        and self._spa_descriptors is None
+                    ):
+                        await self.async_locate_spas(self._spa_address)
 
-                if (
-                    self.spa_state == GeckoSpaState.LOCATED_SPAS
-                    and self._spa_identifier is not None
-                    and self._facade is None
-                ):
-                    await self.async_connect(self._spa_identifier, self._spa_address)
+                    if (
+                        self.spa_state == GeckoSpaState.LOCATED_SPAS
+                        and self._spa_identifier is not None
+                        and self._facade is None
+                    ):
+                        await self.async_connect(
+                            self._spa_identifier, self._spa_address
+                        )
+
+                except asyncio.CancelledError:
+                    raise
+
+                except Exception:  # pylint: disable=broad-except
+                    # A locate or connect that was overtaken by a reset can fail,
+                    # the pump must survive that to run the sequence again
+                    _LOGGER.exception("Exception in sequence pump, continuing")
 
                 await asyncio.sleep(GeckoConstants.ASYNCIO_SLEEP_TIMEOUT_FOR_YIELD)
 
